@@ -9,7 +9,7 @@ for every instance graph `g`, state, operation and iteration-order hint.  Proofs
 
 Property text → theorems
 * "members with no prerequisites inside the group start first (not blocked by holds or a pause …)"
-    `triggered_is_marked`, `triggered_submits_despite_hold_and_pause`
+    `triggered_is_marked`, `triggered_again_is_not_requeued`, `triggered_submits_despite_hold_and_pause`
 * "no member runs more than once per trigger" (per main loop and pooled instance)
     `submit_once_per_loop`
 * "a group-start member that already has a live job is left to finish rather than resubmitted"
@@ -50,6 +50,19 @@ theorem triggered_is_marked (s : State) (x : Proxy) (hin : (s.get? x.pt x.name).
   have h2 := get?_put_self s (triggeredProxy x) (by rw [hk.1, hk.2]; exact hin)
   rw [hk.1, hk.2] at h2
   exact h2
+
+/-- With the early return of `queue_or_trigger` (cylc-flow 6e65a44, flag `qotSkipsPrepped`): a proxy that is not yet
+waiting on job preparation is marked exactly as above; one that already is (triggered before and not yet
+submitted) only has its manual flag set -- it stays as it is in the pool otherwise and the trigger-now list is
+not touched (it is on it already, or was handed to job preparation by its queue). -/
+theorem triggered_again_is_not_requeued (skip : Bool) (s : State) (x : Proxy) :
+    (x.wjp = false → queueOrTriggerG skip s x = queueOrTrigger s x) ∧
+    (skip = true → x.wjp = true →
+      (queueOrTriggerG skip s x).toTrigger = s.toTrigger ∧
+      (queueOrTriggerG skip s x).pool = (s.put { x with manual := true }).pool) := by
+  refine ⟨fun h => ?_, fun h1 h2 => ?_⟩
+  · unfold queueOrTriggerG; simp [h]
+  · unfold queueOrTriggerG; simp [h1, h2, State.put]
 
 /-- **Not blocked by holds or a pause**: the submission step of a main loop launches a job for every pooled
 instance whose key is on the trigger-now list — there is no hypothesis on the held flag of the proxy or on the
